@@ -29,6 +29,7 @@ fn main() {
         Some("cexec") => m_cexec::run(),
         Some("cexec13") => m_cexec::run13(),
         Some("cexecdrop") => m_cexec::run_drop(),
+        Some("cexecre") => m_cexec::run_resched(),
         Some("streams") => m_cexec::run_streams(),
         Some("crun") => m_crun::run(),
         Some("cchan") => m_cchan::run(),
